@@ -12,9 +12,9 @@ RULE = ("all histories of length 1..N over {set(k,v), delete(k)} with k in {a,b}
         "is reopened, itself crashed at every system call of the recovery (one nesting level), and finally reopened cleanly and "
         "compared with a dict reference. non-trivial = distinct (history, crash plan, recovery crash plan) triples where the "
         "first crash left at least one file of the interrupted operation on disk (.new/.rpl or missing key)")
-BOUNDS = {"quick": "histories <= 4 operations, 2 keys, 2 values", "thorough": "histories <= 6 operations"}
+BOUNDS = {"quick": "histories <= 6 operations, 2 keys, 2 values", "thorough": "histories <= 7 operations"}
 ASSUMPTIONS = ["process-crash model: completed system calls persist, user-space buffers are lost, rename/unlink atomic"]
-MIN = {"quick": {"evaluations": 10000, "nontrivial": 4000, "outcomes": 3}}
+MIN = {"quick": {"evaluations": 400000, "nontrivial": 200000, "outcomes": 3}}
 
 OPS = [("set", b"a", b"x"), ("set", b"a", b"yyyy"), ("set", b"b", b"x"), ("set", b"b", b"yyyy"), ("del", b"a"), ("del", b"b")]
 
@@ -144,8 +144,8 @@ def histories(n):
 
 
 def shards(tier, seed):
-    n = 4 if tier == "quick" else 6
-    return split(list(histories(n)), 48 if tier == "quick" else 128)
+    n = 6 if tier == "quick" else 7
+    return split(list(histories(n)), 96 if tier == "quick" else 256)
 
 
 def run_shard(shard, tier, seed):
